@@ -150,3 +150,8 @@ Qed.
 (* the txid is the double SHA-256 of the witness-stripped serialisation *)
 Theorem txid_is_stripped_hash t : txid (parsed_tx t) = sha256d (ser_tx_stripped t).
 Proof. unfold txid. now rewrite raw_tx_stripped. Qed.
+
+(* the bytes of CSV file i are the concatenation of its rows (OutProto.data_for is what success_content puts under the final name) *)
+From RBP Require OutProto.
+Lemma data_for_rows i ws : OutProto.data_for i ws = concat (rows_of i ws).
+Proof. reflexivity. Qed.
